@@ -321,7 +321,7 @@ PLAN["C20"] = {
 
 PLAN["C13"] = {
     "level": "exploration",
-    "rule": ("rapid, harness built with the Go race detector, one in-process server per mode (real depth-3/batch-2 system): each case launches 2-8 (thorough 2-16) concurrent clients with rapid-drawn start offsets (0-30 ms, some in a second wave "
+    "rule": ("rapid, harness built with the Go race detector, one in-process server per mode (real depth-3/batch-2 system): each case launches 3-8 (thorough 3-16) concurrent clients with rapid-drawn start offsets (0-30 ms, some in a second wave "
              "100-600 ms later so waves overlap); the first two clients send valid batches built from their own histories (distinct input hashes), the third an unsatisfiable batch, the rest are drawn from the C09 grammar or are /metrics scrapes. "
              "Oracle per response: the sequential C09 oracle for that client's own request; a 200 body must verify for that client's input hash and for no other client's hash in the case; and zero race-detector reports in the process "
              "(any report naming the repository's frames fails the run; the report and the case history are the replay artefact). Non-trivial = >= 2 valid responses with distinct hashes, >= 1 failing request and >= 3 requests whose lifetimes "
@@ -330,7 +330,7 @@ PLAN["C13"] = {
     "technique": "concurrent property testing with randomised start offsets under the Go race detector; per-response sequential oracle + cross-request proof check",
     "level_text": "Exploration of sampled schedules: a handful (quick) to hundreds (thorough) of concurrent rounds with the race detector armed; isolation is checked cryptographically (a proof verifies only for its own request's hash).",
     "level_note": "schedules are not enumerated; race detection covers executed code paths only; a race report cannot be shrunk and is reported from the log",
-    "quick": [{"test": "TestC13_Deletion", "checks": 4, "race": True, "timeout": 1200, "env": {"GORACE": "halt_on_error=0 exitcode=66"}}],
+    "quick": [{"test": "TestC13_Deletion", "checks": 5, "race": True, "timeout": 1200, "env": {"GORACE": "halt_on_error=0 exitcode=66"}}],
     "thorough": [{"test": "TestC13_Deletion", "checks": 12, "shards": 3, "race": True, "timeout": 3000, "env": {"GORACE": "halt_on_error=0 exitcode=66"}},
                  {"test": "TestC13_Insertion", "checks": 12, "shards": 3, "race": True, "timeout": 3000, "env": {"GORACE": "halt_on_error=0 exitcode=66"}}],
 }
